@@ -259,6 +259,29 @@ def md_key(formula):
     return model_key(model_description(formula))
 
 
+_FRAME = []
+
+
+def build_on_frame(formula):
+    """design_matrices(formula, frame) on a frame with a column per letter (a, b, c categorical and crossed)."""
+    import numpy as np
+    import pandas as pd
+    from formulae import design_matrices
+
+    if not _FRAME:
+        rows = list(itertools.product(["u", "v"], ["p", "q", "r"], ["m", "n"]))
+        d = {"a": [r[0] for r in rows], "b": [r[1] for r in rows], "c": [r[2] for r in rows]}
+        rng = np.random.default_rng(5)
+        for ch in NAMES[3:]:
+            d[ch] = rng.normal(size=len(rows)).round(3)
+        _FRAME.append(pd.DataFrame(d))
+    try:
+        design_matrices(formula, _FRAME[0])
+        return "built"
+    except Exception:
+        return "not-built"
+
+
 def ws_variants(toks):
     """Whitespace variants of a token list that keep the reference token list."""
     texts = [t[1] for t in toks]
@@ -384,6 +407,16 @@ def check_case(case, acc):
                     problems.append(("whitespace", f"{s!r} -> {key} but {v!r} -> {kv}"))
             except Exception as e:
                 problems.append(("whitespace", f"{s!r} accepted but {v!r} raised {type(e).__name__}"))
+    # interpretation is a function of the text alone: building a design from the same text in between changes nothing
+    built = build_on_frame(s)
+    acc.calls += 2
+    try:
+        k3 = md_key(s)
+    except Exception as e:
+        k3 = f"raised {type(e).__name__}"
+    if k3 != key:
+        problems.append(("interpretation-stable", f"{s!r} -> {key}, but after design_matrices on the same text ({built}) -> {k3}"))
+    acc.table("design_built_in_between", built)
     ops = G.binops(tree)
     for a, b in zip(ops, ops[1:]):
         acc.table("operator_pairs_in_accepted_sentences", f"{a} {b}")
